@@ -35,6 +35,8 @@ func TestCheck(t *testing.T) {
 	run.Rule("Two drivers over the real reactive package (reactive.WriteThenReadDelay seeded per scenario: 0 in ~40%, else 0.3-2 ms; minRerunInterval 200-1000us). " +
 		"Cached children can hang off a 'switch' cell (used only while its version is odd), so cache keys drop out of a computation - the child is released while possibly still cached - and come back; the matrix base workload switches two such children off, changes their leaves and switches them on again. " +
 		"Non-reactive readers (reactive.AddDependency with a context without rerunner) read shared cells concurrently with the rerunners, and some compute functions spawn a goroutine that outlives its run and calls AddDependency with the old context after the computation was superseded, failed or stopped (both are already-released dependants; before such a call the monitor notes whether the resource has a zero-holder moment, in which case thunder may legitimately release it). " +
+		"Some optional cached children are requested, in early runs, through reactive.Cache with a derived context that is already cancelled or is cancelled a few microseconds into the call; the error is tolerated and later runs use the live context again. " +
+		"Expirations of different lengths in one run: the root registers a short reactive.InvalidateAfter first and a cached child a longer one; that child also reads a cell without registering it (a value with a time-to-live), which must be refreshed after the child's own deadline (judged by the <=50-runs-after-the-last-write bound, never by wall time). " +
 		"When the delay is non-zero, Stops are aimed at the write-then-read delay of a re-run (write to a cell the rerunner reads, sleep part of the delay, Stop). " +
 		"TARGETED: the complete matrix {cache.locked, cache.hit, cache.miss, cache.set, reactive.release.flagged, reactive.release.edge, rerunner.run.cleaned} x " +
 		"{invalidate a direct leaf, invalidate a cached child's other leaf, Stop, PurgeCache} x {visit 1..3} x {alwaysSpawnGoroutine false,true}; base workload = 3 rerunners over 5 cells, cached children a(c2,c3), b(c3)->g(c2), g also used by the root (key shared by siblings), " +
